@@ -54,6 +54,11 @@ example : ∃ st', filterFrom Variant.repaired RVariant.repaired false [0] LStat
     = .ok (st', ["#!\n".toList, "h\n".toList, "# benchmark: 0\n".toList, "# run_id: 0\n".toList,
                  "# run_id: 1\n".toList, "b\n".toList, "# run_id: 9={\"cmd#!rebench\n".toList]) := ⟨_, rfl⟩
 
+/-- lines are split at `\n` only: U+2028, form feed, U+0085, U+001C … inside a column (a variable
+value, an input size) do not end a line (`str.splitlines` would split there, file iteration does not) -/
+example : (fileLines ("1\ta\u2028b\x0cc\u0085\x1cd\n2\n".toList)).map (·.content)
+    = ["1\ta\u2028b\x0cc\u0085\x1cd".toList, "2".toList] := by decide
+
 /-- pinned tree: the column header line is not copied — `rerun_filters_exactly` is false there -/
 theorem c14_rerun_filters_exactly_pinned_full_fails :
     ¬ (∀ (sel : List Nat) (ls : List FLine) (st' : LState) (out : List Text),
@@ -138,6 +143,37 @@ theorem c14_rewrite_atomic (old : Text) (out : List Text) (cap : Nat) (sameFs : 
         simp [FS.content, FS.lookup, FS.apply, wf.data, wf.old]
       · right; rw [hs]
         simp [FS.content, FS.lookup, FS.apply, FS.bind, wf.tmp, h1', h3']
+
+/-- an OSError at any file-system call of the rewrite (no space, no permission, name too long,
+cross-device rename): the calls before it have been performed — creating the temporary file, some
+or all writes, the close — and the replace has not.  In every such state the data file holds its
+old content: the (repaired) session stops there with an error and has discarded nothing. -/
+theorem c14_rewrite_fault_keeps_old (old : Text) (out : List Text) (cap : Nat) (sameFs : Bool) :
+    ∀ s ∈ crashStates (FS.start old cap) (rewriteOps RVariant.repaired sameFs out).dropLast, s = some old := by
+  intro s hs
+  have hops : (rewriteOps RVariant.repaired sameFs out).dropLast
+      = [Op.create .tmp] ++ (out.map Op.write ++ [Op.close]) := by
+    have : rewriteOps RVariant.repaired sameFs out
+        = ([Op.create .tmp] ++ (out.map Op.write ++ [Op.close])) ++ [Op.rename .tmp .data] := by
+      simp [rewriteOps, RVariant.repaired]
+    rw [this, List.dropLast_concat]
+  rw [hops, mem_crashStates_append] at hs
+  have w0 : Writing ((FS.start old cap).run [Op.create .tmp]) old [] :=
+    ⟨rfl, rfl, rfl, rfl, [], [], rfl, rfl, rfl⟩
+  rcases hs with hs | hs
+  · simp only [crashStates, List.mem_cons, List.not_mem_nil, or_false] at hs
+    rcases hs with hs | hs <;> (rw [hs]; rfl)
+  · rw [mem_crashStates_append] at hs
+    obtain ⟨w1, hw⟩ := writing_writes old out _ [] w0
+    rcases hs with hs | hs
+    · exact hw s hs
+    · simp only [List.nil_append] at w1
+      have wf := writing_flush w1
+      simp only [crashStates, List.mem_cons, List.not_mem_nil, or_false] at hs
+      rcases hs with hs | hs
+      · rw [hs]; exact w1.content
+      · rw [hs]
+        simp [FS.content, FS.lookup, FS.apply, wf.data, wf.old]
 
 /-- and when nothing kills it, the data file ends up with the new content -/
 theorem c14_rewrite_result (old : Text) (out : List Text) (cap : Nat) (sameFs : Bool) :
